@@ -3,6 +3,9 @@
 Proof step (Props/C20.v) + regenerated tie (probe calls compiled by the real compiler, every
 emitted function translated fail-closed into MC.Syntax terms, Coq decides `emitted = model` and
 `print emitted = text`) + search for failing inputs on the real emitted text (mcvm).
+Strengthening round 1: sequence packs (functions holding 2-4 calls with other statements, function calls, execute-wrapped
+calls, if / while blocks in between; class methods; statements outside any function): the text of every function and
+block must be the concatenation of the model's text of each item, and the whole function is run in mcvm.
 """
 from __future__ import annotations
 
@@ -570,8 +573,17 @@ def gen_seq_packs(rng, tier):
         fns = [(f"s{i + j}", b) for j, b in enumerate(chunk)]
         # helper definitions before, after, or in the middle of their callers
         where = (i // per) % 3
+        if where == 2 and fns:      # one of the functions is a class method
+            fns[0] = (SEQ_CLASS + fns[0][0], fns[0][1])
         order = helpers + fns if where == 0 else fns + helpers if where == 1 else fns[:len(fns) // 2] + helpers + fns[len(fns) // 2:]
         packs.append(order)
+    # statements outside any function: the calls are compiled into the load function (no execute wrapper / block: their numbering
+    # relative to the functions' is not the subject)
+    r16 = lambda t: R(t, _L(1), _L(6))
+    helpers = [(h, SEQ_HELPERS[h]) for h in sorted(SEQ_HELPERS)]
+    packs.append([(SEQ_TOP, [r16("$t0"), ("set", "$z", 5), ("fn", "h0"), r16("$t1"), Q("$t2", "$n"), ("fn", "h3"), Q("$t3", "$n")])] + helpers
+                 + [("s_after", [r16("$t0"), ("fn", "h0"), r16("$t1")])])
+    packs.append(helpers + [(SEQ_TOP, [Q("$t0", "$n"), Q("$t0", "$n"), R("$t1", _L(0), _L(5)), ("fn", "h1"), R("$t2", _L(0), _L(5))])])
     return packs
 
 
@@ -591,8 +603,21 @@ def item_src(it, cert):
     return f"while ({it[1]} < {it[2]}) {{ {inner} }}"
 
 
+SEQ_TOP = "<top level>"      # pseudo function name: statements outside any function (they are compiled into the load function)
+SEQ_CLASS = "k/"             # functions named k/<name> are methods of `class k`
+
+
 def seq_source(order, cert):
-    return "\n".join(f"function {name}() {{ {' '.join(item_src(x, cert) for x in items)} }}" for name, items in order)
+    out = []
+    for name, items in order:
+        body = " ".join(item_src(x, cert) for x in items)
+        if name == SEQ_TOP:
+            out.append(body)
+        elif name.startswith(SEQ_CLASS):
+            out.append(f"class k {{ function {name[len(SEQ_CLASS):]}() {{ {body} }} }}")
+        else:
+            out.append(f"function {name}() {{ {body} }}")
+    return "\n".join(out)
 
 
 class SeqModel:
@@ -652,8 +677,12 @@ def seq_pack_cases(pid, ci, order, res):
     pv = cert["PRIVATE"]
     sm = SeqModel(pid, ci)
     fcs, accounted = [], set()
+    top_body = None
     for name, items in order:
         body = sm.block(items, name)
+        if name == SEQ_TOP:
+            top_body = body
+            continue
         sm.files.append((name, coq_str(f"{ns}:{name}"), body, f"sequence function {name}: " + " ".join(item_src(x, cert) for x in items)))
     for key, mname, mbody, role in sm.files:
         text = fns.get(key)
@@ -688,6 +717,8 @@ def seq_pack_cases(pid, ci, order, res):
             continue
         rest.append(ln)
     mload = f"[random_load_line nm{ci}]" if "random" in sm.kinds else "[]"
+    if top_body is not None:
+        mload = f"({mload} ++ {top_body})"
     term, err = mkF(coq_str(f"{ns}:{cert['LOAD']}"), mload, f"{ns}:{cert['LOAD']}", "\n".join(rest))
     fcs.append((term, dict(pack=pid, role="__load__ lines", real=load, untranslatable=err)))
     ics = [(f"ints_ok ({' ++ '.join(model_ints) if model_ints else '[]'}) {coq_list(coq_z(n) for n in sorted(set(ints)))}",
@@ -986,6 +1017,8 @@ def main(tier: str) -> int:
         for fname, items in pack["order"]:
             opsets = [(ck.rng.choice(SEQ_LO), ck.rng.choice(SEQ_HI), ck.rng.choice(SEQ_N), ck.rng.choice(SEQ_N), ck.rng.choice(SEQ_N))
                       for _ in range(2 if tier == "quick" else 5)] + [(5, 10, 0, INT_MAX, 1)]
+            if fname == SEQ_TOP:
+                fname = cert["LOAD"]
             sjobs.append(("seq", fns, ns, cert, fname, items, seq_seeds, opsets))
             smeta.append((pack, fname, dict(kind="sequence", items=items, src=job["src"])))
             n_seq_calls += sum(1 for e in seq_events(items) if e[0] == "call")
@@ -1056,10 +1089,11 @@ def main(tier: str) -> int:
         k += " in-execute" if p["wrapped"] else ""
         hist[k] = hist.get(k, 0) + 1
     ck.cov.update(dict(
-        evaluations=len(fcases) + len(icases) + len(echecks), distinct_nontrivial=len(shapes) * len(CERTS),
+        evaluations=len(fcases) + len(icases) + len(echecks),
+        distinct_nontrivial=len(shapes) * len(CERTS) + len({(pk["ci"], name, repr(items)) for pk in seq_packs for name, items in pk["order"]}),
         rule="a case = one emitted function file (call site, execute wrapper, shared private function, __load__ lines), one "
              "integer-constant set or one expected compile error; per names configuration (2) every probe call alone and all "
-             "together; distinct_nontrivial = distinct (probe shape, names configuration) pairs; every probe exercises a branch "
+             "together; distinct_nontrivial = distinct (probe shape, names configuration) pairs + distinct (sequence function, names configuration) pairs; every probe exercises a branch "
              "of the model (operand-kind combination, literal sign/INT_MIN, default/keyword form, aliasing, execute)",
         samples=[dict(statement=probe_stmt(p, CERTS[0]), emitted=functions_of(results[i]["files"], NAMESPACES[0]).get("p"))
                  for i, p in list(enumerate(probes))[:2] + list(enumerate(probes))[18:20] if results[i]["ok"]],
